@@ -345,6 +345,25 @@ func runC18(ctx *Ctx) {
 					}
 				}
 			}
+			// model-free monitor (strict peering): a local peer that no active entry lists under
+			// the same host address must have been dropped
+			if strict && !rd.NodeErr && !rd.UpdErr {
+				for _, lp := range rd.Locals {
+					lu, e := ethnode.ParseNodeURI(lp.EnodeURI())
+					if e != nil {
+						continue
+					}
+					listed := false
+					for _, ref := range rd.Active {
+						if au, e := ethnode.ParseNodeURI(ref); e == nil && au.ID() == lu.ID() && au.RemoteHost() == lu.RemoteHost() {
+							listed = true
+						}
+					}
+					if !listed && (!containsStr(nodeCalls, "untrust "+lu.ID()) || !containsStr(nodeCalls, "disconnect "+lu.ID())) {
+						mon = append(mon, fmt.Sprintf("c18-strict-unlisted-kept: strict peering: local peer %s is not listed as active by the pool under its host address, yet the agent kept it (node calls: %v)", lp.EnodeURI(), nodeCalls))
+					}
+				}
+			}
 			if (rd.NodeErr || rd.UpdErr) && len(nodeCalls) > 0 {
 				mon = append(mon, fmt.Sprintf("c18-failed-round-had-effect: the keep-alive failed but the node received %v", nodeCalls))
 			}
